@@ -190,10 +190,10 @@ def gen_state(rng, big=False, now=1700000000):
             info.append(0)
     # long equal runs in the big geometries keep the text small
     if bm > 1000:
-        fill = info[0] if info and info[0] else ((now & ~7) | 4)
+        fill = info[0] if info and info[0] else (((now & 0xffffffff) & ~7) | 4)
         info = [(fill if (p not in req or rng.random() < 0.8) else info[p]) for p in range(bm)]
     extra = rng.choice([0, 0, 0, 1, 5])                 # entries beyond blockmax (an array that shrank)
-    info += [((now & ~7) | 4)] * extra
+    info += [(((now & 0xffffffff) & ~7) | 4)] * extra
     from c10_lib import runs_of
     s = dict(bs=bs, hs=hs, hash=rng.choice([1, 2, 3]), seed=rbytes(rng, 16), prev=prev, pseed=rbytes(rng, 16) if prev else b'\0' * 16,
              maps=maps, parity=parity, disks=disks, info_runs=runs_of(info))
